@@ -286,6 +286,11 @@ fn run_c18_direct(input: RunInput) -> ScenFuture {
             tasks.push(tokio::spawn(async move {
                 sleep_ms(a.at_ms).await;
                 let mut req = Request::new(Bytes::new()).with_extension(pid).with_header("id", a.id.to_string()).with_header("dur-ms", a.dur_ms.to_string());
+                // (a deadline the caller states is the timeout layers' business: this layer admits,
+                // refuses and keeps waiting exactly as without it)
+                if a.id % 5 == 2 {
+                    req = req.with_header("timeout", (1_000_000 * (1 + a.id % 7)).to_string());
+                }
                 if a.fail {
                     req = req.with_header("fail", "1");
                 }
@@ -588,7 +593,11 @@ fn run_c19(input: RunInput) -> ScenFuture {
             };
             tasks.push(tokio::spawn(async move {
                 sleep_ms(at).await;
-                let req = Request::new(Bytes::new()).with_extension(pid).with_header("id", id.to_string()).with_header("dur-ms", "3");
+                let mut req = Request::new(Bytes::new()).with_extension(pid).with_header("id", id.to_string()).with_header("dur-ms", "3");
+                // (a deadline the caller states is the timeout layers' business, not this layer's)
+                if id % 5 == 2 {
+                    req = req.with_header("timeout", (200_000 * (1 + id % 7)).to_string());
+                }
                 let res = svc.oneshot(req).await;
                 results.lock().unwrap()[idx].2 = Some(res.map(|_| ()).map_err(|s| (s.status(), s.headers().get(WAIT_NANOS_HEADER).cloned())));
             }));
@@ -947,7 +956,11 @@ fn run_c19_virtual(input: RunInput) -> ScenFuture {
                     g.push((id, peer, 0, None, 0, false));
                     g.len() - 1
                 };
-                let req = Request::new(Bytes::new()).with_extension(pid).with_header("id", id.to_string()).with_header("dur-ms", "1");
+                let mut req = Request::new(Bytes::new()).with_extension(pid).with_header("id", id.to_string()).with_header("dur-ms", "1");
+                // (a deadline the caller states is the timeout layers' business, not this layer's)
+                if id % 5 == 2 {
+                    req = req.with_header("timeout", (200_000 * (1 + id % 7)).to_string());
+                }
                 let call = if is_solo { solo.clone().oneshot(req) } else { services[(a.id % 2) as usize].clone().oneshot(req) };
                 tasks.push(tokio::spawn(async move {
                     sleep_ms(at_ms).await;
